@@ -453,6 +453,9 @@ func TestVerifC13Malformed(t *testing.T) {
 			"code-missing":       func() []byte { m := vfCopyMap(base); delete(m, "code"); return vfJSON(m) },
 			"code-numeric":       func() []byte { m := vfCopyMap(base); m["code"] = e.Code; return vfJSON(m) },
 			"code-unknown":       func() []byte { m := vfCopyMap(base); m["code"] = "no_such_code"; return vfJSON(m) },
+			"code-numbered-17":   func() []byte { m := vfCopyMap(base); m["code"] = "code_17"; return vfJSON(m) },
+			"code-numbered-0":    func() []byte { m := vfCopyMap(base); m["code"] = "code_0"; return vfJSON(m) },
+			"code-numbered-ok":   func() []byte { m := vfCopyMap(base); m["code"] = fmt.Sprintf("code_%d", e.Code); return vfJSON(m) },
 			"code-uppercase":     func() []byte { m := vfCopyMap(base); m["code"] = strings.ToUpper(vfCodeNames[e.Code]); return vfJSON(m) },
 			"unknown-key":        func() []byte { m := vfCopyMap(base); m["extra"] = 1; return vfJSON(m) },
 			"message-not-string": func() []byte { m := vfCopyMap(base); m["message"] = 42; return vfJSON(m) },
@@ -550,6 +553,10 @@ func TestVerifC13Malformed(t *testing.T) {
 			"value-edge-form-feed":    goodBlock + "x-a: value\x0c\r\n",
 			"value-edge-cr":           goodBlock + "x-a: \rvalue\r\n",
 			"doubled-cr-line-ending":  strings.Replace(goodBlock, "\r\n", "\r\r\n", 1),
+			"blank-first-line-then-folded": "\r\n " + goodBlock,
+			"folded-first-line":            " " + goodBlock,
+			"only-blank-lines":             "\r\n\r\n",
+			"tab-folded-after-blank":       "\r\n\t" + goodBlock,
 			"invalid-value-del":       goodBlock + "x-a: a\x7fb\r\n",
 		}
 		for class, block := range blockCases {
